@@ -152,9 +152,11 @@ impl<'a> StateMachine<'a> {
 
             if self.source == Source::Unknown {
                 self.source = detect_source(&self.line);
-                // Handle (rare) plain `diff -u file1 file2` header. Done here to avoid having
-                // to introduce and handle a Source::DiffUnifiedAmbiguous variant everywhere.
-                if self.line.starts_with("--- ") {
+                // Handle plain `diff -u file1 file2` (no header before '--- ') and `diff -ru`
+                // output: in both a removed line '-- x' reads '--- x' and must not be taken
+                // for a file header. Done here to avoid having to introduce and handle a
+                // Source::DiffUnifiedAmbiguous variant everywhere.
+                if self.source == Source::DiffUnified {
                     self.minus_line_counter = AmbiguousDiffMinusCounter::prepare_to_count();
                 }
             }
